@@ -5,7 +5,24 @@ package dpt
 
 import (
 	"fmt"
+	"math"
 )
+
+// scaledV16 rounds a scaled value to the nearest integer and saturates it at the bounds of the
+// 16-bit signed wire format.
+func scaledV16(v float32) int16 {
+	r := math.Round(float64(v))
+
+	if r >= math.MaxInt16 {
+		return math.MaxInt16
+	} else if r <= math.MinInt16 {
+		return math.MinInt16
+	} else if r != r {
+		return 0
+	}
+
+	return int16(r)
+}
 
 // DPT_8001 represents DPT 8.001 / Counter.
 type DPT_8001 int16
@@ -49,7 +66,7 @@ func (d DPT_8002) String() string {
 type DPT_8003 float32
 
 func (d DPT_8003) Pack() []byte {
-	return packV16(int16(d * 100))
+	return packV16(scaledV16(float32(d) * 100))
 }
 
 func (d *DPT_8003) Unpack(data []byte) error {
@@ -76,7 +93,7 @@ func (d DPT_8003) String() string {
 type DPT_8004 float32
 
 func (d DPT_8004) Pack() []byte {
-	return packV16(int16(d * 10))
+	return packV16(scaledV16(float32(d) * 10))
 }
 
 func (d *DPT_8004) Unpack(data []byte) error {
@@ -160,7 +177,7 @@ func (d DPT_8007) String() string {
 type DPT_8010 float32
 
 func (d DPT_8010) Pack() []byte {
-	return packV16(int16(d * 100))
+	return packV16(scaledV16(float32(d) * 100))
 }
 
 func (d *DPT_8010) Unpack(data []byte) error {
